@@ -7,8 +7,6 @@ import (
 
 	"github.com/containerd/containerd/v2/core/remotes/docker"
 	"github.com/containerd/containerd/v2/pkg/reference"
-	"github.com/containerd/containerd/v2/pkg/snapshotters"
-	"github.com/containerd/stargz-snapshotter/fs/config"
 	"github.com/containerd/stargz-snapshotter/internal/verifc20"
 )
 
@@ -37,7 +35,9 @@ func verifC20Adapt(gs GetSources) verifc20.ReadFn {
 // AppendExtraLabelsHandler on containerd's AppendInfoHandlerWrapper) on generated manifests,
 // validates every emitted label with containerd's labels.Validate, feeds the labels to the REAL
 // reader FromDefaultLabels (unmodified, and with subsets removed / corrupted) and emits canonical
-// lines for the Lean model; generator, encoding and oracle live in internal/verifc20.
+// lines for the Lean model; generator, encoding and oracle live in internal/verifc20.  Only EXPORTED
+// identifiers of the package are used, so that a rename of an internal helper or constant cannot break
+// the harness (appendWithValidation is exercised through the writers' urls / urls.<i> labels).
 // The CRI-label reader (package service) is covered by TestVerifC20CRI.
 func TestVerifC20(t *testing.T) {
 	hosts := func(reference.Spec) ([]docker.RegistryHost, error) { return nil, nil }
@@ -45,9 +45,5 @@ func TestVerifC20(t *testing.T) {
 		DefaultWrapper: AppendDefaultLabelsHandlerWrapper,
 		ExtraHandler:   AppendExtraLabelsHandler,
 		ReadDefault:    verifC20Adapt(FromDefaultLabels(hosts)),
-		AWV:            appendWithValidation,
-		Keys: []string{targetRefLabel, targetDigestLabel, targetImageLayersLabel, targetImageURLsLabelPrefix,
-			targetURLsLabel, config.TargetPrefetchSizeLabel, snapshotters.TargetRefLabel,
-			snapshotters.TargetLayerDigestLabel, targetImageLayersLabelContainerd, snapshotters.TargetManifestDigestLabel},
 	})
 }
